@@ -42,14 +42,15 @@ type FaultSpec struct {
 
 // Event is one simulator-visible probe event.
 type Event struct {
-	Seq    int64
-	Steps  int64
-	Polls  int64
-	Tag    string
-	Args   string
-	Frames int
-	Nest   int
-	Pkg    string
+	Seq     int64
+	Steps   int64
+	Polls   int64
+	Tag     string
+	Args    string
+	Frames  int
+	Nest    int
+	Pkg     string
+	StrArgs []string // raw contents of string-typed arguments
 }
 
 func (e Event) Key() string {
@@ -146,13 +147,15 @@ type World struct {
 
 type dormantDebugger struct{}
 
-func (dormantDebugger) IsEnabled() bool                                       { return false }
-func (dormantDebugger) OnEval(*lisp.LEnv, *lisp.LVal) bool                    { return false }
-func (dormantDebugger) WaitIfPaused(*lisp.LEnv, *lisp.LVal) lisp.DebugAction  { return lisp.DebugContinue }
-func (dormantDebugger) OnFunEntry(*lisp.LEnv, *lisp.LVal, *lisp.LEnv)         {}
-func (dormantDebugger) OnFunReturn(*lisp.LEnv, *lisp.LVal, *lisp.LVal)        {}
-func (dormantDebugger) AfterFunCall(*lisp.LEnv) bool                          { return false }
-func (dormantDebugger) OnError(*lisp.LEnv, *lisp.LVal) bool                   { return false }
+func (dormantDebugger) IsEnabled() bool                    { return false }
+func (dormantDebugger) OnEval(*lisp.LEnv, *lisp.LVal) bool { return false }
+func (dormantDebugger) WaitIfPaused(*lisp.LEnv, *lisp.LVal) lisp.DebugAction {
+	return lisp.DebugContinue
+}
+func (dormantDebugger) OnFunEntry(*lisp.LEnv, *lisp.LVal, *lisp.LEnv)  {}
+func (dormantDebugger) OnFunReturn(*lisp.LEnv, *lisp.LVal, *lisp.LVal) {}
+func (dormantDebugger) AfterFunCall(*lisp.LEnv) bool                   { return false }
+func (dormantDebugger) OnError(*lisp.LEnv, *lisp.LVal) bool            { return false }
 
 type stubProfiler struct{ w *World }
 
@@ -258,19 +261,24 @@ func (w *World) bProbe(env *lisp.LEnv, args *lisp.LVal) *lisp.LVal {
 	tag := strings.TrimPrefix(render(args.Cells[0]), "'")
 	var parts []string
 	ret := lisp.Nil()
+	var strArgs []string
 	for _, v := range args.Cells[1:] {
 		parts = append(parts, render(v))
+		if v.Type == lisp.LString {
+			strArgs = append(strArgs, v.Str)
+		}
 		ret = v
 	}
 	ev := Event{
-		Seq:    w.seq,
-		Steps:  w.RT.Steps(),
-		Polls:  w.Ctx.Polls,
-		Tag:    tag,
-		Args:   strings.Join(parts, " "),
-		Frames: len(w.RT.Stack.Frames),
-		Nest:   w.RT.EvalNesting(),
-		Pkg:    w.RT.Package.Name,
+		Seq:     w.seq,
+		Steps:   w.RT.Steps(),
+		Polls:   w.Ctx.Polls,
+		Tag:     tag,
+		Args:    strings.Join(parts, " "),
+		Frames:  len(w.RT.Stack.Frames),
+		Nest:    w.RT.EvalNesting(),
+		Pkg:     w.RT.Package.Name,
+		StrArgs: strArgs,
 	}
 	w.monitor("probe")
 	if w.OnProbe != nil {
@@ -393,14 +401,14 @@ func (w *World) monitor(where string) {
 
 // Outcome is the transcript of one entry-point call.
 type Outcome struct {
-	Value   string `json:"value,omitempty"`
-	Cond    string `json:"cond,omitempty"`
-	Msg     string `json:"msg,omitempty"`
-	IsErr   bool   `json:"is_err,omitempty"`
-	IsPanic bool   `json:"is_panic,omitempty"`
-	GoPanic string `json:"go_panic,omitempty"` // a Go panic escaped the entry point
-	Steps   int64  `json:"steps"`
-	Stderr  string `json:"stderr,omitempty"`
+	Value   string     `json:"value,omitempty"`
+	Cond    string     `json:"cond,omitempty"`
+	Msg     string     `json:"msg,omitempty"`
+	IsErr   bool       `json:"is_err,omitempty"`
+	IsPanic bool       `json:"is_panic,omitempty"`
+	GoPanic string     `json:"go_panic,omitempty"` // a Go panic escaped the entry point
+	Steps   int64      `json:"steps"`
+	Stderr  string     `json:"stderr,omitempty"`
 	Val     *lisp.LVal `json:"-"`
 }
 
